@@ -76,10 +76,10 @@ mutual
 /-- normalisation constant added to the misfit -/
 partial def normConst : DExpr → Float
   | normalDiag _ var true _ =>
-      Dist.normalNorm Float.log Float.abs twoPi (var.a.foldl (· * ·) 1.0) (Float.ofNat var.size)
+      Dist.normalNormSum Float.log Float.abs 0.0 twoPi var.a.toList (Float.ofNat var.size)
   | normalFull mu _ chol true _ =>
-      let dl := (List.range mu.size).foldl (fun acc i => acc * chol.get i i) 1.0
-      Dist.normalNorm Float.log Float.abs twoPi (dl * dl) (Float.ofNat mu.size)
+      -- |det C| = ∏ Lᵢᵢ²
+      Dist.normalNormSum Float.log Float.abs 0.0 twoPi ((List.range mu.size).map (fun i => chol.get i i * chol.get i i)) (Float.ofNat mu.size)
   | laplace _ disp true _ => Dist.laplaceNorm Float.log 0.0 disp.a.toList
   | _ => 0.0
 
